@@ -139,9 +139,11 @@ def check(ctx: Ctx) -> None:
     from ..idioms import check_block_loops_cover
     check_block_loops_cover(ctx, 'C03.k', [FA], floor=3)
     from ..idioms import check_flag_tests_agree
-    check_flag_tests_agree(ctx, 'C03.l', [FA, SU, MU], floor=1)
+    check_flag_tests_agree(ctx, 'C03.l', [FA, SU, MU], floor=0)
     from ..idioms import check_accumulators_initialised
     check_accumulators_initialised(ctx, 'C03.m', [FA, SU, MU], floor=4)
+    from ..units import check_units
+    check_units(ctx, 'C03.n', [FA, SU, MU], floor=5)
     # ------------------------------------------------------------------ C03.a
     ctx.rule('C03.a', 'slice length is not floor(span/step)', floor=1)
     fn = M.func(FA, 'TdlChannel.corrupt_data_in_freq_domain')
@@ -515,6 +517,12 @@ def synthetic():
 
 _CD = 'TdlChannel.corrupt_data'
 MUTANTS = [
+    Mutant('discretised-powers-converted-twice', FA, 'TdlChannelProfile._calc_discretized_tap_powers_and_delays',
+           [('replace', 'discretized_powers_dB = linear2dB(discretized_powers_linear)', 'discretized_powers_dB = linear2dB(linear2dB(discretized_powers_linear))')],
+           r'C03\.n:TdlChannelProfile\._calc_discretized_tap_powers_and_delays'),
+    Mutant('profile-keeps-levels-as-linear-powers', FA, 'TdlChannelProfile.__init__',
+           [('regex', r'self\._tap_powers_linear(: np\.ndarray)? = dB2Linear\(tap_powers_dB\)', 'self._tap_powers_linear = tap_powers_dB')],
+           r'C03\.n:TdlChannelProfile\.__init__'),
     Mutant('siso-accumulator-created-with-empty', FA, 'TdlChannel.corrupt_data',
            [('replace', 'output = np.zeros(num_symbols + channel_memory, dtype=complex)', 'output = np.empty(num_symbols + channel_memory, dtype=complex)')],
            r'C03\.m:TdlChannel\.corrupt_data:empty-accumulator:output'),
